@@ -6,9 +6,10 @@
    s_* = specification model (PART B): cells are coordinate lists (highest direction first) under the shape
          [hshape cls sh]; coordinate x in 0..2s (periodic: 0..2s-1), dimension = number of odd coordinates.
    wf_shape sh = at least one direction and every side has at least one top cell.  Nothing bounds the number of
-   directions or the side lengths.  Non-vacuity examples are in C13_Final.v. *)
+   directions or the side lengths.  Non-vacuity examples are in C13_Final.v; Betti numbers of small tori
+   computed inside Coq (tests, not theorems) are in C13_Examples.v. *)
 From Coq Require Import ZArith List Bool Sorting Permutation Znumtheory.
-Require Import Reduce ReduceExec C13_Model C13_Spec C13_Refine C13_Inc C13_Star C13_Order C13_Proofs C13_Final.
+Require Import Reduce ReduceExec C13_Model C13_Spec C13_Refine C13_Inc C13_Star C13_Order C13_Proofs C13_Final C13_Examples.
 Import ListNotations.
 Local Open Scope Z_scope.
 
@@ -156,6 +157,34 @@ Print Assumptions C13_filtration_nondecreasing.
 Theorem C13_filtration_faces_first : filtration_faces_first_statement.
 Proof. exact filtration_faces_first. Qed.
 Print Assumptions C13_filtration_faces_first.
+
+(* the built values are monotone (a face never has a larger value), for both conventions and both classes, hence the
+   filtration range of a complex built from top cells lists faces first *)
+Theorem C13_built_values_monotone_top : forall cls dims vals, wf_shape dims ->
+  Z.of_nat (length vals) = prod_sizes (map fst dims) ->
+  forall data, a_build cls dims true vals = Some (dims, data) -> monotone cls dims data.
+Proof. exact build_top_monotone. Qed.
+Print Assumptions C13_built_values_monotone_top.
+
+Theorem C13_built_values_monotone_vertices_periodic : forall dims vals, wf_shape (vshape_per dims) ->
+  Z.of_nat (length vals) = prod_sizes (map nvert (hshape true (vshape_per dims))) ->
+  forall sh data, a_build true dims false vals = Some (sh, data) -> sh = vshape_per dims /\ monotone true sh data.
+Proof. exact build_vert_periodic_monotone. Qed.
+Print Assumptions C13_built_values_monotone_vertices_periodic.
+
+Theorem C13_built_values_monotone_vertices_plain : forall dims vals, wf_shape (vshape_plain dims) ->
+  Z.of_nat (length vals) = prod_sizes (map nvert (hshape false (vshape_plain dims))) ->
+  forall sh data, a_build false dims false vals = Some (sh, data) -> sh = vshape_plain dims /\ monotone false sh data.
+Proof. exact build_vert_plain_monotone. Qed.
+Print Assumptions C13_built_values_monotone_vertices_plain.
+
+Theorem C13_built_filtration_faces_first : forall cls dims vals, wf_shape dims ->
+  Z.of_nat (length vals) = prod_sizes (map fst dims) ->
+  forall data, a_build cls dims true vals = Some (dims, data) ->
+  forall i f, 0 <= i < a_size cls dims -> In f (a_bd cls dims i) ->
+  exists l1 l2 l3, a_filtration cls dims data = l1 ++ f :: l2 ++ i :: l3.
+Proof. exact build_top_faces_first. Qed.
+Print Assumptions C13_built_filtration_faces_first.
 
 (* ---- persistence: whatever reduced decomposition of the boundary matrix is exhibited, its pairing is the certified
    one used as oracle, for every prime (Reduce.v / ReduceExec.v); the matrix is well defined because d.d = 0 *)
